@@ -10,6 +10,7 @@ import (
 	"strings"
 
 	"go.minekube.com/brigodier"
+	"go.minekube.com/common/minecraft/key"
 	"go.minekube.com/gate/pkg/edition/java/profile"
 	p "go.minekube.com/gate/pkg/edition/java/proto/packet"
 	"go.minekube.com/gate/pkg/edition/java/proto/packet/bossbar"
@@ -69,7 +70,7 @@ var Specs = map[string]*Spec{
 		"packet.Handshake.ServerAddress": str(0, 255),
 		"packet.Handshake.Port": func(g *G) any {
 			// unsigned short on the wire
-			return []int{0, 1, 25565, 32767, 32768, 40000, 65535, g.R.Intn(65536)}[g.R.Intn(8)]
+			return []int{25565, 40000, g.R.Intn(65536), 65535, 0, 32768}[g.K%6]
 		},
 		"packet.Handshake.NextStatus": rng(1, 3),
 	}, Note: "Port in 0..65535 (unsigned short)"},
@@ -160,7 +161,12 @@ var Specs = map[string]*Spec{
 	"config.TagsUpdate":     {MapOrder: true},
 	"cookie.CookieRequest":  {},
 	"cookie.CookieResponse": {Over: ov{"cookie.CookieResponse.Payload": byts(0, 5120)}},
-	"cookie.CookieStore":    {Over: ov{"cookie.CookieStore.Payload": byts(0, 5120)}},
+	"cookie.CookieStore": {Over: ov{"cookie.CookieStore.Payload": func(g *G) any {
+		if g.K%6 == 2 {
+			return []byte{} // "store an empty cookie" is a legal request
+		}
+		return g.Bytes(1, 5120)
+	}}},
 	"chat.LegacyChat": {Over: ov{"chat.LegacyChat.Message": func(g *G) any {
 		max := 100
 		if g.Row.Dir == proto.ClientBound {
@@ -209,9 +215,9 @@ var Specs = map[string]*Spec{
 	"playerinfo.Upsert": {Gen: genUpsert},
 }
 
-// Generate builds a packet for row, deterministically from seed.
-func Generate(row Row, seed int64, class Class) (proto.Packet, *G, *Spec) {
-	g := &G{R: rand.New(rand.NewSource(seed)), Row: row, P: row.Protocol, Class: class}
+// Generate builds value number k of row, deterministically from seed (class = k mod 3).
+func Generate(row Row, seed int64, k int) (proto.Packet, *G, *Spec) {
+	g := &G{R: rand.New(rand.NewSource(seed)), Row: row, P: row.Protocol, Class: Class(k % 3), K: k}
 	pk := row.New()
 	spec := Specs[row.TypeName]
 	reviewed := spec != nil
@@ -310,7 +316,7 @@ func (g *G) dimension() int {
 	case g.P >= 766: // registry id VarInt
 		return g.R.Intn(8)
 	default: // 1.7-1.15: -1 nether, 0 overworld, 1 end (byte before 1.9.1, int after)
-		return []int{-1, 0, 1}[g.R.Intn(3)]
+		return []int{-1, 0, 1}[g.K%3]
 	}
 }
 
@@ -393,9 +399,12 @@ func (g *G) soundSource() p.SoundSource {
 
 func genSoundEntity(g *G, pk proto.Packet) {
 	s := pk.(*p.SoundEntityPacket)
-	if g.Bool() {
+	if g.K%2 == 1 || g.Class == ClassLarge {
 		s.SoundID = 0
 		s.SoundName = g.Key()
+		if g.Class == ClassLarge { // a resource-pack sound in its own namespace
+			s.SoundName = key.New("mypack", "sfx/"+g.ident(5))
+		}
 		if g.present() {
 			f := g.Float32()
 			s.FixedRange = &f
@@ -578,6 +587,9 @@ func genLegacyTabList(g *G, pk proto.Packet) {
 		return
 	}
 	l.Action = legacytablist.PlayerListItemAction(g.R.Intn(5))
+	if g.Class == ClassSmall {
+		l.Action = legacytablist.AddPlayerListItemAction
+	}
 	n := g.Count(1000)
 	if g.Class == ClassLarge {
 		n = 20
@@ -611,9 +623,14 @@ func genUpsert(g *G, pk proto.Packet) {
 			u.ActionSet = append(u.ActionSet, playerinfo.UpsertActions[i])
 		}
 	}
-	if g.Class == ClassRandom && len(u.ActionSet) > 1 && g.R.Intn(3) == 0 {
+	if g.K%6 == 5 {
 		// the same set in another slice order (a set has no order; Velocity uses an EnumSet)
-		g.R.Shuffle(len(u.ActionSet), func(i, j int) { u.ActionSet[i], u.ActionSet[j] = u.ActionSet[j], u.ActionSet[i] })
+		for len(u.ActionSet) < 2 {
+			u.ActionSet = append([]playerinfo.UpsertAction{}, playerinfo.UpsertActions[:3]...)
+		}
+		for i, j := 0, len(u.ActionSet)-1; i < j; i, j = i+1, j-1 {
+			u.ActionSet[i], u.ActionSet[j] = u.ActionSet[j], u.ActionSet[i]
+		}
 		canonical := true
 		idx := func(a playerinfo.UpsertAction) int {
 			for k, x := range playerinfo.UpsertActions {
